@@ -1,4 +1,5 @@
 import copy
+import numbers
 import warnings
 
 import numpy as np
@@ -588,7 +589,8 @@ class CircularAnnulusROI(Roi):
         self.outer_radius = None
 
     def defined(self):
-        number = (float, int)
+        # Note that this includes Numpy scalars such as float32 and int64
+        number = numbers.Real
         if (isinstance(self.xc, number) and isinstance(self.yc, number) and
                 isinstance(self.inner_radius, number) and isinstance(self.outer_radius, number) and
                 (self.inner_radius > 0) and (self.outer_radius > self.inner_radius)):
